@@ -562,3 +562,93 @@ def s_apply_as_function(ctx):
 
 SCENARIOS.append(Scenario("C07.as_function.apply", s_apply_as_function, F("RewriteRuleSet._apply_to_graph_or_function"),
                           trusted=["_copy_for_function copies the given nodes (its own contract is not stated)", "ir.Graph / ir.Function constructors (onnx_ir)"]))
+
+
+def s_copy_for_function(ctx):
+    """_copy_for_function(inputs, nodes, outputs): the function body is an isomorphic copy of the matched nodes that shares
+    NO value with the enclosing graph — formal parameters stand for the call's operands, constants captured from outside
+    are re-created as Constant nodes in front, every other outside value is an error — with the same operators,
+    attributes and output names."""
+    import onnx_ir as ir
+    rr = _rr()
+    I = Interp(ctx)
+
+    def val(name, const=None):
+        v = SObj(ir.Value, name)
+        v.fields.update(name=name, shape="shape:" + name, type="type:" + name, doc_string="", const_value=const)
+        return v
+    x, t, y = val("x"), val("t"), val("y")
+    outside_kind = ["an operand of the call", "a constant", "a plain outside value"][ctx.choose(3, "the second operand of the first node is")]
+    c = x if outside_kind == "an operand of the call" else val("c", "TENSOR" if outside_kind == "a constant" else None)
+    with_none = ctx.choose(2, "the call has an omitted (None) operand") == 1
+    attr = SObj(ir.Attr, "attr")
+    attr.fields.update(name="axis", type=ir.AttributeType.INT, value=1)
+
+    def f_isref():
+        raise AssertionError
+    I.models[f_isref] = lambda interp: False
+    attr.fields["is_ref"] = f_isref
+    from .irmodel import AttrDict
+    n1, n2 = SObj(ir.Node, "n1"), SObj(ir.Node, "n2")
+    n1.fields.update(domain="", op_type="Add", overload="", inputs=[x, c], outputs=[t], attributes=AttrDict({}), name="n1", doc_string="", metadata_props={"k": "v"})
+    n2.fields.update(domain="custom", op_type="Foo", overload="ov", inputs=[t, None, x], outputs=[y], attributes=AttrDict({"axis": attr}), name="n2", doc_string="", metadata_props={})
+    fresh = []
+
+    def m_value(interp, name=None, shape=None, type=None, doc_string=None, **k):
+        v = SObj(ir.Value, "fresh")
+        v.fields.update(name=name, shape=shape, type=type, doc_string=doc_string, const_value=None)
+        fresh.append(v)
+        return v
+    I.models[ir.Value] = m_value
+    made = []
+
+    def m_node(interp, domain, op_type, inputs=(), attributes=(), overload="", num_outputs=1, graph=None, name=None, doc_string=None, metadata_props=None, **k):
+        n = SObj(ir.Node, "copy")
+        outs = [m_value(interp) for _ in range(num_outputs)]
+        n.fields.update(domain=domain, op_type=op_type, overload=overload, inputs=list(inputs), attributes=list(attributes), outputs=outs, name=name,
+                        metadata_props=metadata_props, graph=graph)
+        made.append(n)
+        return n
+    I.models[ir.Node] = m_node
+    I.models[ir.AttrTensor] = lambda interp, name, t_: ("attr-tensor", name, t_)
+    inputs = [x] + ([None] if with_none else [])
+    try:
+        r = I.run_closure(I.closure_of(rr._copy_for_function), [inputs, [n1, n2], [y]], {})
+    except PyRaise as e:
+        ctx.check("C07.as_function.copy.raises_only_for_an_outside_value_that_is_no_operand_and_no_constant",
+                  outside_kind == "a plain outside value" and isinstance(e.exc, ValueError), CL_INIT)
+        return
+    ctx.check("C07.as_function.copy.an_uncopyable_outside_value_is_refused", outside_kind != "a plain outside value", CL_INIT)
+    f_in, f_nodes, f_out = r
+    originals = [x, t, y, c]
+    ok = len(f_in) == len(inputs) and all(not any(v is o for o in originals) for v in f_in) and f_in[0].fields["name"] == "x" and f_in[0].fields["type"] == "type:x"
+    ctx.check("C07.as_function.copy.one_fresh_formal_parameter_per_operand", ok, CL_INIT)
+    n_const = 1 if outside_kind == "a constant" else 0
+    ok = len(f_nodes) == 2 + n_const
+    ctx.check("C07.as_function.copy.one_copy_per_node_plus_one_constant_per_captured_constant", ok, CL_INIT)
+    if not ok:
+        return
+    consts, (c1, c2) = f_nodes[:n_const], f_nodes[n_const:]
+    if n_const:
+        k0 = consts[0]
+        ctx.check("C07.as_function.copy.captured_constant_becomes_a_constant_node_in_front", k0.fields["op_type"] == "Constant" and k0.fields["domain"] == "" and
+                  k0.fields["inputs"] == [] and k0.fields["attributes"] == [("attr-tensor", "value", "TENSOR")], CL_INIT)
+    image_c = f_in[0] if outside_kind == "an operand of the call" else (consts[0].fields["outputs"][0] if n_const else None)
+    ctx.check("C07.as_function.copy.copies_have_the_same_operator_overload_attributes_and_metadata",
+              (c1.fields["domain"], c1.fields["op_type"], c1.fields["overload"], c1.fields["name"]) == ("", "Add", "", "n1") and
+              (c2.fields["domain"], c2.fields["op_type"], c2.fields["overload"], c2.fields["name"]) == ("custom", "Foo", "ov", "n2") and
+              c2.fields["attributes"] == [attr] and c1.fields["metadata_props"] == {"k": "v"} and c1.fields["metadata_props"] is not n1.fields["metadata_props"], CL_INIT)
+    ctx.check("C07.as_function.copy.inputs_of_the_copies_are_the_images_of_the_original_inputs",
+              len(c1.fields["inputs"]) == 2 and c1.fields["inputs"][0] is f_in[0] and c1.fields["inputs"][1] is image_c and
+              len(c2.fields["inputs"]) == 3 and c2.fields["inputs"][0] is c1.fields["outputs"][0] and c2.fields["inputs"][1] is None and c2.fields["inputs"][2] is f_in[0],
+              CL + " — the function computes what the matched nodes computed")
+    ctx.check("C07.as_function.copy.no_value_is_shared_with_the_enclosing_graph",
+              not any(any(v is o for o in originals) for n in f_nodes for v in list(n.fields["inputs"]) + list(n.fields["outputs"]) if v is not None), CL_INIT)
+    ctx.check("C07.as_function.copy.outputs_are_the_images_of_the_matched_outputs_with_their_names", len(f_out) == 1 and f_out[0] is c2.fields["outputs"][0] and
+              c2.fields["outputs"][0].fields["name"] == "y" and c1.fields["outputs"][0].fields["name"] == "t", CL_INIT)
+
+
+SCENARIOS.append(Scenario("C07.as_function.copy", s_copy_for_function,
+                          F("_copy_for_function", "_copy_for_function.copy_value", "_copy_for_function.copy_attr_value", "_copy_for_function.copy_node"), kind="bounded",
+                          bound="two chained nodes, one call operand (+ optional None), one outside value (operand / constant / other)",
+                          trusted=["ir.Value / ir.Node constructors (onnx_ir)"]))
